@@ -794,6 +794,20 @@ class Spectrum(Generic[_TData]):
     def _unpickle(cls, args: tuple[Any, ...], kwargs: dict[str, Any]) -> Self:
         return cls(*args, **kwargs)
 
+    def __reduce_ex__(self, protocol: SupportsIndex, /) -> tuple[Any, ...]:
+        """Return object state for pickling with the specified protocol."""
+        func, args = self.__reduce__()
+        if protocol.__index__() >= 5:
+            # Protocol 5 rebuilds NumPy arrays over the pickle's own buffer instead of new memory.
+            func = self.__class__._unpickle_protocol_5
+        return (func, args)
+
+    @classmethod
+    def _unpickle_protocol_5(cls, args: tuple[Any, ...], kwargs: dict[str, Any]) -> Self:
+        # The unpickled object must own its data like the one that was pickled, or it could
+        # never grow beyond its capacity.
+        return cls(*args, **{**kwargs, "data": np.array(kwargs["data"], order="C")})
+
     def __repr__(self) -> str:
         """Return repr(self)."""
         args = [f"{self._sample_count}"]
